@@ -1395,7 +1395,9 @@ class SpaceManager(SharedSpaceOperations):
 
         for subspace in self._get_subs(space):
             if name in subspace.cells:
-                continue
+                c = subspace.cells[name]
+                if c.is_derived() and c.defined_bases[0] is cells:
+                    c.on_inherit(self, c.defined_bases)
             else:
                 subspace.clear_subs_rootitems()
                 derived = UserCellsImpl(
